@@ -5,13 +5,15 @@
 set -u
 md=$1; outf=$2
 wt=/tmp/wt-confirm
-if [ ! -d $wt ]; then git -C /repo worktree add -q --detach $wt 9f1ceaf || exit 2; fi
-cd $wt && git checkout -q -- . && git clean -fdq -e target
+base=9f1ceaf
+[ -f "$md/../../BASE" ] && base=$(cat "$md/../../BASE")
+if [ ! -d $wt ]; then git -C /repo worktree add -q --detach $wt $base || exit 2; fi
+cd $wt && git checkout -q -- . && git clean -fdq -e target && git checkout -q --detach $base
 first=$(head -1 $md/demo.rs)
 dest=$(echo "$first" | sed -E 's/.*[Cc]opy to ([^ ;]+).*/\1/')
 cmd=$(echo "$first" | sed -E 's/.*run: *(cargo test.*)$/\1/')
 {
-echo "mutant: $md"; echo "demo -> $dest ; cmd: $cmd"
+echo "mutant: $md (base $base)"; echo "demo -> $dest ; cmd: $cmd"
 git apply --check $md/patch.diff && echo "APPLY: ok" || { echo "APPLY: FAIL"; exit 0; }
 mkdir -p $(dirname $dest); cp $md/demo.rs $dest
 $cmd > /tmp/confirm_demo0.log 2>&1; r0=$?
